@@ -1066,13 +1066,14 @@ fn main() {
     }
 
     let seed = args.seed;
-    // Under Miri a case costs seconds: a handful of dynamic cases and a seed-dependent quarter of
-    // the static shapes per interpreter run (the lane runs several seeds).
+    // Under Miri one evaluation costs ~0.3 s: a couple of dynamic cases and a seed-dependent slice
+    // of the static shapes per interpreter run (the lane runs 16 seeds, which cover every shape).
     let shapes = STATIC_NAMES.len() as u64;
     let (n_dyn, n_static, static_from) = if cfg!(miri) {
-        (args.get_u64("cases", 8), shapes / 4, (seed % 4) * (shapes / 4))
+        let per_run = args.get_u64("shapes", 3);
+        (args.get_u64("cases", 2), per_run, (seed % ((shapes + per_run - 1) / per_run)) * per_run)
     } else {
-        (args.n(40_000, 2_000_000), args.n(shapes * 400, shapes * 25_000), 0)
+        (args.n(25_000, 1_000_000), args.n(shapes * 250, shapes * 8_000), 0)
     };
     par_cases(&mut r, &args, n_dyn, |i, r| dyn_case(r, seed, i));
     par_cases(&mut r, &args, n_static, |i, r| static_case(r, seed, static_from + i));
